@@ -7,7 +7,7 @@ Open Scope Z_scope.
 
 (* ---------------------------------------------------------------- experiments: one switch per repair, so that a partly repaired tree
    is described too; all off = process_sample_cur, all on = process_sample_fix (lemmas below) *)
-Definition process_sample_v (vf vu vd : bool) (dmi dme : bool) (st : polya_strategy) (pool : bool) (e : experiment) (g : gstate) : eout * gstate :=
+Definition process_sample_v (vf vu vd : bool) (dmi dme : bool) (st : polya_strategy) (rgfn : bool) (pool : bool) (e : experiment) (g : gstate) : eout * gstate :=
   let requires := set_strategy (e_polya_high e) st in
   let mi := set_strategy ((if vf then dmi else g_mono_intronic g) || requires) st in
   let me := set_strategy ((if vf then dme else g_mono_exonic g) || requires) st in
@@ -15,43 +15,46 @@ Definition process_sample_v (vf vu vd : bool) (dmi dme : bool) (st : polya_strat
   let '(known, d) := if vd then (map (fun c => fst (chr_known_fix c (g_detected g))) (e_chroms e), g_detected g)
                      else if pool then (map (fun c => fst (chr_known c (g_detected g))) (e_chroms e), g_detected g)
                      else known_seq (e_chroms e) (g_detected g) in
-  (mko requires mi me (not_aligned_line un (e_stat_not_aligned e)) known, mkg mi me un d).
-Lemma process_sample_v_cur dmi dme st pool e g : process_sample_v false false false dmi dme st pool e g = process_sample_cur st pool e g.
+  (mko requires mi me (not_aligned_line un (e_stat_not_aligned e)) known (replicas_flag rgfn e), mkg mi me un d (replicas_flag rgfn e)).
+Lemma process_sample_v_cur dmi dme st rgfn pool e g : process_sample_v false false false dmi dme st rgfn pool e g = process_sample_cur st rgfn pool e g.
 Proof. reflexivity. Qed.
-Lemma process_sample_v_fix dmi dme st pool e g : process_sample_v true true true dmi dme st pool e g = process_sample_fix dmi dme st pool e g.
+Lemma process_sample_v_fix dmi dme st rgfn pool e g : process_sample_v true true true dmi dme st rgfn pool e g = process_sample_fix dmi dme st rgfn pool e g.
 Proof. unfold process_sample_v, process_sample_fix. cbn [Z.add]. reflexivity. Qed.
 
 Definition b3_eqb (a b : bool * bool * bool) : bool :=
   Bool.eqb (fst (fst a)) (fst (fst b)) && Bool.eqb (snd (fst a)) (snd (fst b)) && Bool.eqb (snd a) (snd b).
 Definition flags_of (o : eout) : bool * bool * bool := (o_requires o, o_mono_intronic o, o_mono_exonic o).
 Definition st_of (k : Z) : polya_strategy := if k =? 0 then PAuto else if k =? 1 then PNever else PAlways.
-(* unit probe of DatasetProcessor.process_sample: (dmi, dme, strategy, polyA-high per experiment, observed (requires, mono-intronic, mono-exonic)) *)
-Definition flagcase := (bool * bool * Z * list bool * list (bool * bool * bool))%type.
-Definition fc_exps (c : flagcase) : list experiment := map (fun h => mke h 0 0 []) (snd (fst c)).
+(* unit probe of DatasetProcessor.process_sample: (dmi, dme, strategy, read_group == "file_name", per experiment (polyA high, number of files),
+   observed (requires, mono-intronic, mono-exonic, use_technical_replicas) as process_assigned_reads sees them) *)
+Definition b4_eqb (a b : bool * bool * bool * bool) : bool := b3_eqb (fst a) (fst b) && Bool.eqb (snd a) (snd b).
+Definition flags4_of (o : eout) : bool * bool * bool * bool := (flags_of o, o_replicas o).
+Definition flagcase := (bool * bool * Z * bool * list (bool * Z) * list (bool * bool * bool * bool))%type.
+Definition fc_exps (l : list (bool * Z)) : list experiment := map (fun h => mke (fst h) 0 0 [] (snd h)) l.
 Definition check_flags (vf : bool) (c : flagcase) : bool :=
-  let '(dmi, dme, k, highs, obs) := c in
-  list_eqb b3_eqb (map flags_of (run_samples (process_sample_v vf true true dmi dme (st_of k) false) (fc_exps c) (init_state dmi dme))) obs.
+  let '(dmi, dme, k, rgfn, exps, obs) := c in
+  list_eqb b4_eqb (map flags4_of (run_samples (process_sample_v vf true true dmi dme (st_of k) rgfn false) (fc_exps exps) (init_state dmi dme rgfn))) obs.
 (* the property itself on the implementation's answers: every experiment gets the flags of a stand-alone run *)
 Definition prop_flags (c : flagcase) : bool :=
-  let '(dmi, dme, k, highs, obs) := c in
-  list_eqb b3_eqb (map (fun e => flags_of (fst (process_sample_cur (st_of k) false e (init_state dmi dme)))) (fc_exps c)) obs.
+  let '(dmi, dme, k, rgfn, exps, obs) := c in
+  list_eqb b4_eqb (map (fun e => flags4_of (fst (process_sample_cur (st_of k) rgfn false e (init_state dmi dme rgfn)))) (fc_exps exps)) obs.
 
 (* whole runs: per experiment what a stand-alone run shows (polyA high, unmapped reads, known isoforms reported per chromosome) and what
    the multi-experiment run shows (flags, __not_aligned, known isoforms per chromosome; id lists sorted) *)
 Definition zss_eqb := list_eqb zs_eqb.
 Record obs_exp := mkobs { ob_flags : bool * bool * bool; ob_not_aligned : Z; ob_known : list (list Z) }.
-Definition runcase := (bool * bool * Z * bool * list experiment * list obs_exp)%type.     (* dmi, dme, strategy, pool, experiments, observed *)
+Definition runcase := (bool * bool * Z * bool * bool * list experiment * list obs_exp)%type.     (* dmi, dme, strategy, read_group = file_name, pool, experiments, observed *)
 Definition norm_known (k : list (list (list Z))) : list (list Z) := map (fun c => isort Z.leb (concat c)) k.
 Definition obs_eqb (o : eout) (b : obs_exp) : bool :=
   b3_eqb (flags_of o) (ob_flags b) && (o_not_aligned o =? ob_not_aligned b) && zss_eqb (norm_known (o_known o)) (ob_known b).
 Definition check_run (vf vu vd : bool) (c : runcase) : bool :=
-  let '(dmi, dme, k, pool, es, obs) := c in
+  let '(dmi, dme, k, rgfn, pool, es, obs) := c in
   (fix go (os : list eout) (bs : list obs_exp) := match os, bs with [] , [] => true | o :: s, b :: t => obs_eqb o b && go s t | _, _ => false end)
-    (run_samples (process_sample_v vf vu vd dmi dme (st_of k) pool) es (init_state dmi dme)) obs.
+    (run_samples (process_sample_v vf vu vd dmi dme (st_of k) rgfn pool) es (init_state dmi dme rgfn)) obs.
 Definition prop_run (c : runcase) : bool :=
-  let '(dmi, dme, k, pool, es, obs) := c in
+  let '(dmi, dme, k, rgfn, pool, es, obs) := c in
   (fix go (os : list eout) (bs : list obs_exp) := match os, bs with [] , [] => true | o :: s, b :: t => obs_eqb o b && go s t | _, _ => false end)
-    (map (fun e => fst (process_sample_cur (st_of k) true e (init_state dmi dme))) es) obs.
+    (map (fun e => fst (process_sample_cur (st_of k) rgfn true e (init_state dmi dme rgfn))) es) obs.
 
 (* ---------------------------------------------------------------- combined tables *)
 Definition row_eqb (a b : Z * list (option Z)) : bool := (fst a =? fst b) && ozs_eqb (snd a) (snd b).
